@@ -8,6 +8,10 @@ import (
 
 func init() { propChecks["C14"] = checkC14 }
 
+// note texts: letters, digits, inner blanks and inner punctuation (no ':' - it would turn a text note
+// into a named one - and nothing the tokenizer trims at the ends of a line)
+var c14NoteTexts = []string{"ok 1", "free text 2", "ate 50% of the usual portion", "3.5% fat", "100%", "a, b (c) / d + e = f!", "%d %s %v %", "don't & won't", "бележка 7", "x%y%z"}
+
 var c14Formats = []string{"2006/01/02", "2006-01-02", "02.01.2006", "Jan 2 2006"}
 
 func checkC14(w *Worker) {
@@ -38,9 +42,9 @@ func checkC14(w *Worker) {
 					case 1: // a food that repeats within the day: merged
 						rec.Items = append(rec.Items, absItem{Name: c13Names[ni], NumText: c13Qty[qi]})
 					case 2:
-						rec.Items = append(rec.Items, absItem{IsNote: true, Name: "mood", NoteText: fmt.Sprintf("ok %d", k)})
+						rec.Items = append(rec.Items, absItem{IsNote: true, Name: "mood", NoteText: c14NoteTexts[(ni+k)%len(c14NoteTexts)]})
 					default:
-						rec.Items = append(rec.Items, absItem{IsNote: true, NoteText: fmt.Sprintf("free text %d", k)})
+						rec.Items = append(rec.Items, absItem{IsNote: true, NoteText: c14NoteTexts[(ni+k+1)%len(c14NoteTexts)]})
 					}
 				}
 				f = append(f, rec)
